@@ -173,7 +173,7 @@ Proof.
     pose proof (pop_script_frame si (obs (WCb si) (emit ev s))) as F.
     pose proof (T_ok_pop si (obs (WCb si) (emit ev s)) (proj2 (proj1 HP1))) as HT.
     destruct (pop_script si (obs (WCb si) (emit ev s))) as [sc s2]. cbn [fst snd] in *.
-    destruct F as (Fcs & Fsock & Fregw & Foutq & Fping & Fincb & Fproto & Fnsock & Fsched & Ftr).
+    destruct F as (Fcs & Fsock & Fregw & Foutq & Fping & Fincb & Fcq & Fproto & Fnsock & Fsched & Ftr).
     assert (HP2 : P s2).
     { destruct HP1 as [[HJ _] Hw]. split; [split; [|exact HT]|].
       - rewrite (KS_frame _ _ _ _ Ftr), Fsock. destruct HJ. constructor; rewrite ?Fregw; assumption.
@@ -214,7 +214,7 @@ Proof.
   assert (Hsc : script_noreconn (fst (pop_script si (obs (WCb si) (emit ev s)))) = true).
   { destruct Hsi as [-> | ->]; [apply T_ok_pop_close|apply T_ok_pop_unregw]; exact HT. }
   destruct (pop_script si (obs (WCb si) (emit ev s))) as [sc s2]. cbn [fst snd] in *.
-  destruct F as (Fcs & Fsock & Fregw & Foutq & Fping & Fincb & Fproto & Fnsock & Fsched & Ftr).
+  destruct F as (Fcs & Fsock & Fregw & Foutq & Fping & Fincb & Fcq & Fproto & Fnsock & Fsched & Ftr).
   assert (HW2 : win id s2).
   { destruct HW1 as (A & HJ & _). unfold win. rewrite (KS_frame _ _ _ _ Ftr), Fsock.
     split; [exact A|]. split; [|exact HT2]. destruct HJ. constructor; rewrite ?Fregw; assumption. }
@@ -315,7 +315,7 @@ Proof.
   pose proof (T_ok_pop SiClose s3 (proj2 (proj1 HP3))) as HT3.
   pose proof (T_ok_pop_close s3 (proj2 (proj1 HP3))) as Hsc.
   destruct (pop_script SiClose s3) as [sc s4]. cbn [fst snd] in *.
-  destruct F as (Fcs & Fsock & Fregw & Foutq & Fping & Fincb & Fproto & Fnsock & Fsched & Ftr).
+  destruct F as (Fcs & Fsock & Fregw & Foutq & Fping & Fincb & Fcq & Fproto & Fnsock & Fsched & Ftr).
   assert (Hs3 : sock s3 = None) by (unfold s3; ssimpl; destruct W2 as (X & _); exact X).
   assert (HP4 : P s4).
   { destruct HP3 as [[HJ3 _] Hw]. split; [split; [|exact HT3]|].
@@ -349,6 +349,8 @@ Proof. apply P_frame; reflexivity. Qed.
 Lemma P_set_proto x s : P s -> P (set_proto x s).
 Proof. apply P_frame; reflexivity. Qed.
 Lemma P_set_sched x s : P s -> P (set_sched x s).
+Proof. apply P_frame; reflexivity. Qed.
+Lemma P_set_cq x s : P s -> P (set_cq x s).
 Proof. apply P_frame; reflexivity. Qed.
 Lemma P0_set_outq x s : P0 s -> P0 (set_outq x s).
 Proof. apply P0_frame; reflexivity. Qed.
@@ -430,7 +432,7 @@ Qed.
 
 Lemma loop_write_P s : P s -> P (fst (loop_write c nested s)).
 Proof.
-  intros HP. unfold loop_write. destruct (sock s); [|exact HP].
+  intros HP. unfold loop_write. destruct (sock s); [|exact HP]. destruct (negb (cq s)); [exact HP|].
   unfold packet_write. pose proof (pw_loop_P (pw_fuel s) s HP) as H1.
   destruct (pw_loop c nested (pw_fuel s) s) as [s1 rc]. cbn [fst] in H1.
   assert (H2 : P (fst (if rc =? E_AGAIN then (s1, 0) else if rc >? 0 then loop_rc_handle c nested rc s1 else (s1, 0)))).
@@ -444,10 +446,12 @@ Qed.
 Lemma packet_queue_P k s : P s -> P (fst (packet_queue c nested k s)).
 Proof.
   intros [H0 Hw]. unfold packet_queue.
-  set (s1 := set_outq (match k with KConnect => mkQ k false :: outq s | _ => outq s ++ [mkQ k false] end) s).
-  assert (H1 : P0 s1) by (apply P0_set_outq; exact H0).
-  destruct (negb (c_ext c) && negb (incb s1)) eqn:E.
-  - apply loop_write_P. split; [exact H1|]. unfold WW. intros A. apply andb_true_iff in E as [E _].
+  set (s1 := match k with KConnect => set_cq true (set_outq (mkQ k false :: outq s) s) | _ => set_outq (outq s ++ [mkQ k false]) s end).
+  assert (H1 : P0 s1).
+  { unfold s1. destruct k; try (apply P0_set_outq; exact H0).
+    apply (P0_frame (set_outq (mkQ KConnect false :: outq s) s)); try reflexivity. apply P0_set_outq. exact H0. }
+  destruct (negb (c_ext c) && cq s1 && negb (incb s1)) eqn:E.
+  - apply loop_write_P. split; [exact H1|]. unfold WW. intros A. apply andb_true_iff in E as [E _]. apply andb_true_iff in E as [E _].
     rewrite A in E. discriminate.
   - cbn [fst]. apply call_regw_P. exact H1.
 Qed.
@@ -468,15 +472,15 @@ Proof.
   assert (H3 : P (set_outq [] s2)).
   { destruct H2 as [H0 _]. split; [apply P0_set_outq; exact H0|]. unfold WW. ssimpl. congruence. }
   destruct ok; cbn [negb].
-  2:{ cbn [fst]. apply P_emit; [reflexivity|exact H3]. }
+  2:{ cbn [fst]. apply P_emit; [reflexivity|]. apply P_set_cq. exact H3. }
   rewrite Hsockcb.
   set (id := nsock (set_outq [] s2) + 1).
-  set (s4 := emit (SockNew id) (set_regw false (set_sock (Some id) (set_nsock id (set_outq [] s2))))).
+  set (s4 := emit (SockNew id) (set_regw false (set_sock (Some id) (set_nsock id (set_cq false (set_outq [] s2)))))).
   assert (H5 : P (run_site nested SiOpen false (SockOpen id) s4)).
   { apply run_site_P; [discriminate|].
     destruct H3 as [[HJ HT] _]. split; [split; [|exact HT]|unfold WW, s4; ssimpl; congruence].
     rewrite KS_emit. unfold s4. rewrite KS_emit, (k16_inert _ _ (SockNew id)) by reflexivity.
-    rewrite (KS_frame _ _ (set_outq [] s2) (set_regw false (set_sock (Some id) (set_nsock id (set_outq [] s2))))) by reflexivity.
+    rewrite (KS_frame _ _ (set_outq [] s2) (set_regw false (set_sock (Some id) (set_nsock id (set_cq false (set_outq [] s2)))))) by reflexivity.
     ssimpl. rewrite Hs2 in HJ.
     apply J_frame with (s := s2); [ssimpl; symmetry; exact Hr2|].
     apply J_open_ev; [|exact Hr2]. apply J_frame with (s := set_outq [] s2); [reflexivity|exact HJ]. }
@@ -627,7 +631,7 @@ Lemma Top_step c (Hs : c_sockcb c = true) s k o : Top c s k -> excl_T o = true -
 Proof.
   intros [HJ Hw] HT. unfold step.
   set (s0 := set_incb false (set_sched (o_sched o) (set_scr (o_scr o)
-               (mkSt (cs s) (sock s) (regw s) (outq s) (ping s) (incb s) (proto s) (nsock s) (sched s) (scr s) [])))).
+               (mkSt (cs s) (sock s) (regw s) (outq s) (ping s) (incb s) (cq s) (proto s) (nsock s) (sched s) (scr s) [])))).
   assert (HP0 : P c k s0).
   { split; [split|].
     - unfold KS, s0. cbn. apply J_frame with (s := s); [reflexivity|exact HJ].
